@@ -44,11 +44,12 @@
 EXTENDS Moment
 
 CONSTANTS Fire,      \* "pinned" | "rearm": which schedule.defer the transition system transcribes
-          Configs,   \* set of [start : Nat, nodes : [tags -> [kind : {"task","analysis"}, events : SUBSET EventSpec]]]
+          Configs,   \* set of [start : Nat, late : BOOLEAN, nodes : [tags -> [kind : {"task","analysis"}, events : SUBSET EventSpec]]]
+                     \* late: the environment of this configuration may run wake-ups late and hold the pipeline (one more step)
           MaxEnv,    \* bound on environment steps (Tick, Advance, NewTarget)
           Jumps,     \* clock increments the environment may choose
-          Lates,     \* how late a timer wake-up may run ({}: never late)
-          Pausing    \* BOOLEAN: may the operator pause the pipeline
+          LateJumps, \* ... in a configuration with cfg.late
+          Lates      \* how late a timer wake-up may run in a configuration with cfg.late
 
 ALL == "__all__"
 T1  == "T1"
@@ -126,7 +127,8 @@ FInit == /\ cfg \in Configs
          /\ up = FALSE /\ clock = cfg.start /\ timers = {}
          /\ status = [n \in Nodes |-> "initial"] /\ queued = [n \in Nodes |-> FALSE]
          /\ todo = [n \in Nodes |-> {}] /\ exec = [n \in Nodes |-> {}]
-         /\ booted = {} /\ targets = {T1} /\ lastFire = [n \in Nodes |-> -1] /\ env = MaxEnv
+         /\ booted = {} /\ targets = {T1} /\ lastFire = [n \in Nodes |-> -1]
+         /\ env = IF cfg.late THEN MaxEnv + 1 ELSE MaxEnv
          /\ served = [n \in Nodes |-> [e \in Ev(n) |-> -1]]
          /\ paused = FALSE
 
@@ -140,20 +142,24 @@ Tick == /\ up /\ env > 0 /\ timers # {} /\ Min(timers) < Horizon
         /\ env' = env - 1
         /\ UNCHANGED <<cfg, up, exec, targets, paused>>
 
-(* the earliest request runs dt seconds late (no other request falls due meanwhile) *)
-LateTick(dt) == /\ up /\ env > 0 /\ timers # {} /\ Min(timers) + dt < Horizon
+(* the earliest request runs dt seconds late (no other request falls due meanwhile).
+   ENVIRONMENT BOUND: the late pass still runs on the day the request was for -- a firing is the
+   firing for a moment until the end of that moment's day (OnceStep), and _delay designates
+   today's moment until the day is over; a wake-up delayed across midnight is outside the bound *)
+LateTick(dt) == /\ cfg.late /\ up /\ env > 0 /\ timers # {} /\ Min(timers) + dt < Horizon
+                /\ (Min(timers) + dt) \div DAY = Min(timers) \div DAY
                 /\ \A t \in timers : t = Min(timers) \/ t > Min(timers) + dt
                 /\ clock' = Min(timers) + dt
                 /\ Pass(Min(timers) + dt, timers \ {Min(timers)})
                 /\ env' = env - 1
                 /\ UNCHANGED <<cfg, up, exec, targets, paused>>
 
-Pause   == /\ Pausing /\ up /\ env > 0 /\ ~paused
+Pause   == /\ cfg.late /\ up /\ env > 0 /\ ~paused
            /\ paused' = TRUE /\ env' = env - 1
            /\ UNCHANGED <<cfg, up, clock, timers, status, queued, todo, exec, booted, targets, lastFire, served>>
-Unpause == /\ up /\ env > 0 /\ paused
-           /\ paused' = FALSE /\ env' = env - 1
-           /\ UNCHANGED <<cfg, up, clock, timers, status, queued, todo, exec, booted, targets, lastFire, served>>
+Unpause == /\ up /\ paused            \* (free: Pause is counted)
+           /\ paused' = FALSE
+           /\ UNCHANGED <<cfg, up, clock, timers, status, queued, todo, exec, booted, targets, lastFire, served, env>>
 
 (* the clock of a PAUSED pipeline moves by dt across its polls: every pass on the
    way (the first at the pending request t0, then every Poll seconds) only polls
@@ -189,8 +195,9 @@ NewTarget == /\ up /\ env > 0 /\ T2 \notin targets
              /\ targets' = targets \cup {T2} /\ env' = env - 1
              /\ UNCHANGED <<cfg, up, clock, timers, status, queued, todo, exec, booted, lastFire, served, paused>>
 
+JumpsOf == IF cfg.late THEN LateJumps ELSE Jumps
 FNext == \/ Boot \/ Tick \/ Dispatch \/ NewTarget \/ Pause \/ Unpause
-         \/ \E dt \in Jumps : Advance(dt) \/ Skip(dt)
+         \/ \E dt \in JumpsOf : Advance(dt) \/ Skip(dt)
          \/ \E dt \in Lates : LateTick(dt)
          \/ \E n \in Nodes : \E x \in exec[n] : Complete(n, x)
 
